@@ -1,0 +1,27 @@
+//go:build verif
+
+// Contracts (machine-checked specifications) for the dispatcher genesis types, read by /verif's govc.
+// This file contains comments only and compiles to nothing with or without the tag.
+
+package dispatcher
+
+// A valid dispatcher genesis (C17): every entry names two valid cross-chain identifiers; amounts are
+// set, non-negative and not both zero; counts are positive.
+//@ macro amtEntryOK(a) = a.Denom != "" && a.SourceId != nil && vcc(deref(a.SourceId)) && a.DestinationId != nil && vcc(deref(a.DestinationId)) &&
+//@                       !isnil(a.AmountDispatched.Incoming) && !isnil(a.AmountDispatched.Outgoing) && val(a.AmountDispatched.Incoming) >= 0 && val(a.AmountDispatched.Outgoing) >= 0
+//@ macro cntEntryOK(c) = c.Count > 0 && c.SourceId != nil && vcc(deref(c.SourceId)) && c.DestinationId != nil && vcc(deref(c.DestinationId))
+//@ macro amtEntriesOK(g) = forall j int trigger(g.DispatchedAmounts[j]) :: 0 <= j && j < len(g.DispatchedAmounts) ==> amtEntryOK(g.DispatchedAmounts[j])
+//@ macro cntEntriesOK(g) = forall j int trigger(g.DispatchedCounts[j]) :: 0 <= j && j < len(g.DispatchedCounts) ==> cntEntryOK(g.DispatchedCounts[j])
+//@ macro dispGenesisOK(g) = g != nil && amtEntriesOK(g) && cntEntriesOK(g)
+
+//@ func (a DispatchedAmountEntry) Validate() (err)
+//@   ensures[C17] err == nil ==> amtEntryOK(a)
+
+//@ func (c DispatchCountEntry) Validate() (err)
+//@   ensures[C17] err == nil ==> cntEntryOK(c)
+
+//@ func (g *GenesisState) Validate() (err)
+//@   loop 0 invariant[C17] forall j int :: 0 <= j && j < idx ==> amtEntryOK(g.DispatchedAmounts[j])
+//@   loop 1 invariant[C17] forall j int :: 0 <= j && j < idx ==> cntEntryOK(g.DispatchedCounts[j])
+//@   ensures[C17] err == nil ==> g != nil && amtEntriesOK(g)
+//@   ensures[C17] err == nil ==> cntEntriesOK(g)
